@@ -351,3 +351,28 @@ M("C11-table-no-cache-global", {"C11": "C11.R5", "C14": "C14.R6"},
   (_UV, "@functools.cache\ndef locations_compressed(", "_LOCATIONS = {}\n\n\ndef locations_compressed("),
   (_UV, "    full_matrix_size = block_size * num_blocks\n    indices = [_compressed_index(r, c, full_matrix_size)\n               for (r, c) in positions_as_coordinates]\n    return indices", "    full_matrix_size = block_size * num_blocks\n    key = (block_id, row_in_block, col_in_block, full_matrix_size)\n    if key not in _LOCATIONS:\n        _LOCATIONS[key] = [_compressed_index(r, c, full_matrix_size)\n                           for (r, c) in positions_as_coordinates]\n    return _LOCATIONS[key]"))
 M("C11-twin-index-direct", {"C11": None}, (_UV, "    return int(\n        _size_including_this_row(row, uncompressed_size)\n        - (_elements_in_row_after_target(column, uncompressed_size) + 1)\n        )", "    return int(uncompressed_size * row - row * (row + 1) / 2 + column)"))
+
+# ---------------------------------------------------------------- C05 / C06
+M("C05-density-no-half-on-logdet", {"C05": "C05.R1"}, (_L, "    lle = 0.5 * (log_det_theta\n                 - (x_minus_mu.T @ theta_i @ x_minus_mu)\n                 - nw_log_2pi)", "    lle = log_det_theta - 0.5 * ((x_minus_mu.T @ theta_i @ x_minus_mu)\n                 + nw_log_2pi)"))
+M("C05-density-nw-is-w", {"C05": "C05.R1"}, (_L, "    nw = window_size * num_data_series\n", "    nw = window_size\n"))
+M("C05-density-plus-quadratic", {"C05": "C05.R1"}, (_L, "                 - (x_minus_mu.T @ theta_i @ x_minus_mu)\n", "                 + (x_minus_mu.T @ theta_i @ x_minus_mu)\n"))
+M("C05-density-expanded-quadratic", {"C05": "C05.R1"}, (_L, "                 - (x_minus_mu.T @ theta_i @ x_minus_mu)\n", "                 - (x_t.T @ theta_i @ x_t - 2 * (mu_i.T @ theta_i @ x_t) + mu_i.T @ theta_i @ mu_i)\n"))
+M("C05-table-logdet-other-cluster", {"C05": "C05.R2"}, (_L, "                mus[cluster], thetas[cluster], log_det_thetas[cluster],", "                mus[cluster], thetas[cluster], log_det_thetas[0],"))
+M("C05-table-transposed", {"C05": "C05.R2", "C15": "C15.R3"}, (_L, "            result[point, cluster] = point_log_likelihood_fast(", "            result[cluster, point] = point_log_likelihood_fast("))
+M("C05-wrapper-thetas-train-inverse-stale", {"C05": "C05.R2"}, (_L, "    thetas = np.asarray([x.inverse_covariance for x in model.clusters])", "    thetas = np.asarray([x.computed_covariance for x in model.clusters])"))
+M("C05-refresh-only-when-none", {"C05": "C05.R3"}, (_L, "        model.clusters[cluster].log_determinant = np.linalg.slogdet(inverse_covariance)[1]", "        if model.clusters[cluster].log_determinant is None:\n            model.clusters[cluster].log_determinant = np.linalg.slogdet(inverse_covariance)[1]"))
+M("C05-refresh-skips-last", {"C05": "C05.R3"}, (_L, "    for cluster in range(model.arguments.num_clusters):\n        inverse_covariance", "    for cluster in range(model.arguments.num_clusters - 1):\n        inverse_covariance"))
+M("C05-copy-before-scoring", {"C05": "C05.R3"},
+  (_K, "    log_likelihood = likelihood.all_points_all_clusters_log_likelihood(\n        model, test_data\n    )\n", "    new_model = model.shallow_copy()\n    new_model.clusters = [cluster.deep_copy() for cluster in new_model.clusters]\n    log_likelihood = likelihood.all_points_all_clusters_log_likelihood(\n        model, test_data\n    )\n"),
+  (_K, "    new_model = model.shallow_copy()\n    new_model.clusters = [cluster.deep_copy() for cluster in new_model.clusters]\n    new_model.point_labels = new_labels", "    new_model.point_labels = new_labels"))
+M("C05-perpoint-wrong-cluster", {"C05": "C05.R4", "C06": "C06.R1"}, ("main_loop.py", "            model.clusters[cluster_id],\n            model.arguments.window_size,", "            model.clusters[0],\n            model.arguments.window_size,"))
+M("C05-wrapper-logdet-swapped", {"C05": "C05.R4"}, (_L, "    return point_log_likelihood_fast(point,\n                                     mu_i, theta_i, log_det_theta,", "    return point_log_likelihood_fast(point,\n                                     mu_i, cluster.train_inverse, log_det_theta,"))
+M("C06-prefix-placeholder", {"C06": "C06.R1"}, ("main_loop.py", "        cluster_log_likelihood[cluster_id].append(ll)\n\n    return", "        cluster_log_likelihood[cluster_id].append(ll)\n\n    for next_cluster_array in cluster_log_likelihood:\n        if len(next_cluster_array) == 0:\n            next_cluster_array.append(0)\n\n    return"))
+M("C06-append-unlabelled-too", {"C06": "C06.R1"}, ("main_loop.py", "        if cluster_id == -1:\n            # these points did not participate in clustering\n            continue\n", ""))
+M("C06-extra-entry-main-loop", {"C06": "C06.R1"}, ("main_loop.py", "    # make this forward-facing\n", "    cluster_log_likelihood[0].append(0.0)\n    # make this forward-facing\n"))
+M("C06-mean-of-cluster-means", {"C06": "C06.R2"}, ("main_loop.py", "    overall_log_likelihood_mean = np.mean(all_log_likelihood)", "    overall_log_likelihood_mean = np.mean([np.mean(c) for c in cluster_log_likelihood if len(c) > 0])"))
+M("C06-median-guard-gt-one", {"C06": "C06.R2"}, ("main_loop.py", "        np.median(single_cluster_log_likelihood)\n        if len(single_cluster_log_likelihood) > 0 else 0", "        np.median(single_cluster_log_likelihood)\n        if len(single_cluster_log_likelihood) > 1 else 0"))
+M("C06-sum-excludes-first", {"C06": "C06.R2"}, ("main_loop.py", "    overall_log_likelihood = np.sum(all_log_likelihood)", "    overall_log_likelihood = np.sum(all_log_likelihood[1:])"))
+M("C06-multi-copy-wrong-field", {"C06": "C06.R4"}, ("front_end.py", "        overall_log_likelihood_mean=master_result.overall_log_likelihood_mean,", "        overall_log_likelihood_mean=master_result.overall_log_likelihood_median,"))
+M("C06-twin-neq-guard", {"C06": None, "C05": None}, ("main_loop.py", "        if cluster_id == -1:\n            # these points did not participate in clustering\n            continue\n        ll = likelihood.point_log_likelihood(\n            stacked_training_data[point_id],\n            model.clusters[cluster_id],\n            model.arguments.window_size,\n            num_data_series\n        )\n        cluster_log_likelihood[cluster_id].append(ll)\n",
+  "        if cluster_id != -1:\n            ll = likelihood.point_log_likelihood(\n                stacked_training_data[point_id],\n                model.clusters[cluster_id],\n                model.arguments.window_size,\n                num_data_series\n            )\n            cluster_log_likelihood[cluster_id].append(ll)\n"))
